@@ -619,6 +619,8 @@ func init() {
 				{remotes: []string{"a1", "a2"}, per: 2, backlog: 128, batch: 3, filter: true, bound: sb, strict: true},
 				{remotes: []string{"a1", "a2"}, per: 2, backlog: 1, batch: 2, bound: sb, strict: true},
 				{remotes: []string{"a1", "b1"}, per: 2, backlog: 128, closer: true, bound: sb, strict: true},
+				// one remote keeps sending while its connection is being closed (few threads: a deeper bound is affordable)
+				{remotes: []string{"a1"}, per: 3, backlog: 128, closer: true, bound: sb + 1, strict: true},
 			}
 			if tier == "thorough" {
 				cfgs = append(cfgs,
